@@ -283,7 +283,11 @@ class TorchOps(Ops):
                         return v
                 vals = [v for _, v in d.items]
                 if not vals:
-                    return self.unk("lookup in empty dict", node)
+                    # d[key] on a dictionary known to be empty raises KeyError
+                    from .interp import AbsRaise
+
+                    self.ev("raise_site", node, exc="KeyError", what="lookup in an empty dictionary")
+                    raise AbsRaise("KeyError", node, self.interp.where(node)[1] if hasattr(self.interp, "where") else "")
                 out = vals[0]
                 for v in vals[1:]:
                     out = join(out, v)
